@@ -238,7 +238,14 @@ struct Built {
 
 /// SQE of `op` on world `w` through the wrapper's constructors
 fn build(op: &Value, w: &World, u: u64, link: bool, keep: &mut Keep) -> Built {
-    let fl = if link { IoUringSQEFlags::IOSQE_IO_LINK } else { IoUringSQEFlags::empty() };
+    // link: the next entry belongs to this chain; hard: with IOSQE_IO_HARDLINK (the chain survives a failure of this entry)
+    let fl = if link && op["hard"].as_bool().unwrap_or(false) {
+        IoUringSQEFlags::IOSQE_IO_HARDLINK
+    } else if link {
+        IoUringSQEFlags::IOSQE_IO_LINK
+    } else {
+        IoUringSQEFlags::empty()
+    };
     let g = |k: &str| op[k].as_u64().unwrap_or(0);
     let dirsel = |k: &str| w.dirfd(g(k)).map(|d| Fd::try_new(d).unwrap());
     let dir = dirsel("dir");
@@ -548,7 +555,7 @@ fn run(batches: &str, root: &str, entries: u32, flagbits: u32, out: &mut Out) {
                 Ok(None) => {}
                 Err(m) => panicked = json!({"call":"get_next_sqe_slot","msg":m}),
             }
-            let mut s = json!({"u":u,"op":op["op"],"link":link,"req":0,"got_slot":got_slot});
+            let mut s = json!({"u":u,"op":op["op"],"link":link,"hard":link && op["hard"].as_bool().unwrap_or(false),"req":0,"got_slot":got_slot});
             if op["op"] == "readv" || op["op"] == "readfix" {
                 s["req"] = json!(RLEN[op["len"].as_u64().unwrap_or(0) as usize]);
             }
@@ -558,7 +565,7 @@ fn run(batches: &str, root: &str, entries: u32, flagbits: u32, out: &mut Out) {
             subs.push(s);
             built.push(bl);
         }
-        let to_submit = match guarded(|| ring.flush_submission_queue()) {
+        let mut to_submit = match guarded(|| ring.flush_submission_queue()) {
             Ok(v) => i64::from(v),
             Err(m) => {
                 panicked = json!({"call":"flush_submission_queue","msg":m});
@@ -566,6 +573,7 @@ fn run(batches: &str, root: &str, entries: u32, flagbits: u32, out: &mut Out) {
             }
         };
         let mut enter_ret: i64 = 0;
+        let mut attempts: Vec<i64> = Vec::new();
         if sqpoll {
             // the tail store and the flag load must not be reordered (a full barrier, as liburing has it)
             std::sync::atomic::fence(std::sync::atomic::Ordering::SeqCst);
@@ -574,10 +582,26 @@ fn run(batches: &str, root: &str, entries: u32, flagbits: u32, out: &mut Out) {
             }
             enter_ret = if enter_ret < 0 { enter_ret } else { to_submit };
         } else if to_submit > 0 {
-            enter_ret = match io_uring_enter(ring.fd, to_submit as u32, 0, IoUringEnterFlags::IORING_ENTER_GETEVENTS) {
-                Ok(v) => v as i64,
-                Err(e) => -i64::from(e.code.map_or(1, |c| c.raw())),
-            };
+            // io_uring_enter may fail without having taken anything (EINTR, EAGAIN, EBUSY; EBADFD on a ring created
+            // disabled): the caller flushes again - which must again report everything still unconsumed - and retries
+            for _ in 0..4 {
+                enter_ret = match io_uring_enter(ring.fd, to_submit as u32, 0, IoUringEnterFlags::IORING_ENTER_GETEVENTS) {
+                    Ok(v) => v as i64,
+                    Err(e) => -i64::from(e.code.map_or(1, |c| c.raw())),
+                };
+                attempts.push(enter_ret);
+                if ![-4, -11, -16, -77].contains(&enter_ret) {
+                    break;
+                }
+                if enter_ret == -77 {
+                    // IORING_REGISTER_ENABLE_RINGS (the wrapper has no call for it)
+                    unsafe { libc::syscall(libc::SYS_io_uring_register, ring.fd.value(), 12, 0usize, 0) };
+                }
+                to_submit = guarded(|| ring.flush_submission_queue()).map_or(-1, i64::from);
+                if to_submit <= 0 {
+                    break; // nothing left to hand over, says the wrapper
+                }
+            }
         }
         // reap until every submission has completed (or 2 s passed), then look once more for extras
         let mut cqes = Vec::new();
@@ -700,7 +724,7 @@ fn run(batches: &str, root: &str, entries: u32, flagbits: u32, out: &mut Out) {
         b.apply(ops, &res_b, start_b);
         let (da, db) = (a.digest(), b.digest());
         let payload_same: Vec<bool> = payload_a.iter().zip(payload_b.iter()).map(|(x, y)| x == y).collect();
-        let mut rec = json!({"ev":"batch","b":bt["b"],"n":n,"subs":subs,"filled":filled,"to_submit":to_submit,"enter":enter_ret,
+        let mut rec = json!({"ev":"batch","b":bt["b"],"n":n,"subs":subs,"filled":filled,"to_submit":to_submit,"enter":enter_ret,"enter_attempts":attempts,
             "cqes":cqes,"direct":directs,"payload_same":payload_same,"side_same":da == db,"panic":!panicked.is_null()});
         if da != db {
             rec["side"] = json!({"a":da,"b":db});
@@ -1144,6 +1168,88 @@ fn main() {
             let r = guarded(|| run_sock(&a[2], &a[3], a[4].parse().unwrap(), a[5].parse().unwrap(), &mut out));
             if let Err(m) = r {
                 out.ev(&json!({"ev":"aborted","why":m}));
+            }
+        }
+        "constants" => {
+            let mut m = serde_json::Map::new();
+            macro_rules! c { ($t:ident, $($n:ident),*) => { $( m.insert(stringify!($n).to_string(), json!(u64::from($t::$n.bits()))); )* } }
+            c!(IoUringSQEFlags, IOSQE_FIXED_FILE, IOSQE_IO_DRAIN, IOSQE_IO_LINK, IOSQE_IO_HARDLINK, IOSQE_ASYNC, IOSQE_BUFFER_SELECT, IOSQE_CQE_SKIP_SUCCESS);
+            c!(IoUringParamFlags, IORING_SETUP_IOPOLL, IORING_SETUP_SQPOLL, IORING_SETUP_SQ_AFF, IORING_SETUP_CQSIZE, IORING_SETUP_CLAMP, IORING_SETUP_ATTACH_WQ,
+                IORING_SETUP_R_DISABLED, IORING_SETUP_SUBMIT_ALL, IORING_SETUP_COOP_TASKRUN, IORING_SETUP_TASKRUN_FLAG, IORING_SETUP_SQE128, IORING_SETUP_CQE32,
+                IORING_SETUP_SINGLE_ISSUER, IORING_SETUP_DEFER_TASKRUN);
+            c!(IoUringEnterFlags, IORING_ENTER_GETEVENTS, IORING_ENTER_SQ_WAKEUP, IORING_ENTER_SQ_WAIT, IORING_ENTER_EXT_ARG, IORING_ENTER_REGISTERED_RING);
+            {
+                use rusl::platform::IoUringFeatFlags as F;
+                c!(F, IORING_FEAT_SINGLE_MMAP, IORING_FEAT_NODROP, IORING_FEAT_SUBMIT_STABLE, IORING_FEAT_RW_CUR_POS, IORING_FEAT_CUR_PERSONALITY,
+                    IORING_FEAT_FAST_POLL, IORING_FEAT_POLL_32BITS, IORING_FEAT_SQPOLL_NONFIXED, IORING_FEAT_EXT_ARG, IORING_FEAT_NATIVE_WORKERS,
+                    IORING_FEAT_RSRC_TAGS, IORING_FEAT_CQE_SKIP, IORING_FEAT_LINKED_FILE);
+            }
+            m.insert("IORING_POLL_ADD_MULTI".into(), json!(PollAddMultiFlags::ADD_MULTI.bits()));
+            m.insert("IORING_POLL_UPDATE_EVENTS".into(), json!(PollAddMultiFlags::UPDATE_EVENTS.bits()));
+            m.insert("IORING_POLL_UPDATE_USER_DATA".into(), json!(PollAddMultiFlags::UPDATE_USER_DATA.bits()));
+            {
+                use rusl::platform::IoUringOp as O;
+                macro_rules! o { ($($v:ident => $n:expr),*) => { $( m.insert($n.to_string(), json!(O::$v as u8)); )* } }
+                o!(Nop => "IORING_OP_NOP", Readv => "IORING_OP_READV", Writev => "IORING_OP_WRITEV", Fsync => "IORING_OP_FSYNC", ReadFixed => "IORING_OP_READ_FIXED",
+                   WriteFixed => "IORING_OP_WRITE_FIXED", PollAdd => "IORING_OP_POLL_ADD", Sendmsg => "IORING_OP_SENDMSG", Recvmsg => "IORING_OP_RECVMSG",
+                   Timeout => "IORING_OP_TIMEOUT", Accept => "IORING_OP_ACCEPT", Connect => "IORING_OP_CONNECT", Openat => "IORING_OP_OPENAT", Close => "IORING_OP_CLOSE",
+                   Statx => "IORING_OP_STATX", Read => "IORING_OP_READ", Write => "IORING_OP_WRITE", Renameat => "IORING_OP_RENAMEAT", Unlinkat => "IORING_OP_UNLINKAT",
+                   Mkdirat => "IORING_OP_MKDIRAT", Symlinkat => "IORING_OP_SYMLINKAT", Linkat => "IORING_OP_LINKAT", Socket => "IORING_OP_SOCKET", Shutdown => "IORING_OP_SHUTDOWN");
+            }
+            out.ev(&json!({"ev":"constants","lib":Value::Object(m)}));
+        }
+        "overflow" => {
+            // SQPOLL ring with a 2-slot... completion ring: completions are left unreaped until the ring overflows
+            // (IORING_SQ_CQ_OVERFLOW in the flags word), the polling thread goes idle, then one more entry is submitted
+            // by the wake-up protocol, checked ONCE, before anything is reaped.  Every entry must complete exactly once.
+            let r = setup_io_uring(1, param_flags(IoUringParamFlags::IORING_SETUP_SQPOLL.bits()), 0, 50);
+            match r {
+                Err(e) => out.ev(&json!({"ev":"setup_failed","err":format!("{e}")})),
+                Ok(mut ring) => {
+                    let submit = |ring: &mut IoUring, u: u64| -> bool {
+                        let Some(p) = ring.get_next_sqe_slot() else { return false };
+                        unsafe { p.write(IoUringSubmissionQueueEntry::new_close(Fd::try_new(BADFD).unwrap(), u, IoUringSQEFlags::empty())) };
+                        ring.flush_submission_queue();
+                        std::sync::atomic::fence(std::sync::atomic::Ordering::SeqCst);
+                        if ring.needs_wakeup() {
+                            let _ = io_uring_enter(ring.fd, 0, 0, IoUringEnterFlags::IORING_ENTER_SQ_WAKEUP);
+                        }
+                        true
+                    };
+                    let n: u64 = 9;
+                    let mut filled = 0u32;
+                    for u in 1..n {
+                        // wait until the polling thread took the previous entry (the ring has one slot)
+                        let t0 = std::time::Instant::now();
+                        while ring.flush_submission_queue() != 0 && t0.elapsed().as_millis() < 1000 {
+                            std::thread::yield_now();
+                        }
+                        if submit(&mut ring, u) {
+                            filled += 1;
+                        }
+                    }
+                    std::thread::sleep(std::time::Duration::from_millis(300)); // past sq_thread_idle
+                    let t0 = std::time::Instant::now();
+                    while ring.flush_submission_queue() != 0 && t0.elapsed().as_millis() < 1000 {
+                        std::thread::yield_now();
+                    }
+                    if submit(&mut ring, n) {
+                        filled += 1;
+                    }
+                    std::thread::sleep(std::time::Duration::from_millis(300));
+                    let mut seen = vec![0u8; n as usize + 1];
+                    let (mut completed, mut dups, mut unknown, mut bad_res) = (0u32, 0u32, 0u32, 0u32);
+                    let deadline = std::time::Instant::now() + std::time::Duration::from_secs(2);
+                    while (completed as u64) < n && std::time::Instant::now() < deadline {
+                        while let Some((u, res)) = ring.get_next_cqe().map(|c| (c.0.user_data, c.0.res)) {
+                            if u == 0 || u > n { unknown += 1 } else if seen[u as usize] != 0 { dups += 1 } else { seen[u as usize] = 1; completed += 1 }
+                            if res != -9 { bad_res += 1 }
+                        }
+                        let _ = io_uring_enter(ring.fd, 0, 0, IoUringEnterFlags::IORING_ENTER_GETEVENTS); // flushes the overflow list, wakes nobody
+                        std::thread::sleep(std::time::Duration::from_millis(1));
+                    }
+                    out.ev(&json!({"ev":"lap","scenario":"sqpoll_cq_overflow_idle","n":n,"filled":filled,"to_submit":0,"enter":0,"completed":completed,"dups":dups,"unknown":unknown,"bad_res":bad_res}));
+                }
             }
         }
         "probe" => {
